@@ -86,6 +86,8 @@ func (x *Exec) ioWrite(fr *Frame, st *State, w Value, b Value, pos token.Pos) Va
 	ol := Select(x.ioComp(st, "Io.outlen", false), w.X)
 	x.vc.assumeOnce(m.cmp(token.LEQ, m.ix(0), ol, ixT))
 	okc := x.vc.fresh("wrok", SBool) // a writer may fail at any time
+	// ... unless the contract says it cannot (infallible(w): e.g. a hash.Hash, whose Write never returns an error)
+	x.vc.assume(Implies(x.infallible(w.X), okc))
 	n := b.Len
 	// on success: out' = out ++ b
 	na := x.vc.fresh("wr", SArr(m.ixSort(), m.intSort(IntTy{8, false})))
@@ -93,9 +95,21 @@ func (x *Exec) ioWrite(fr *Frame, st *State, w Value, b Value, pos token.Pos) Va
 	oldOut := Select(out, w.X)
 	inNew := And(m.cmp(token.LEQ, ol, k, ixT), m.cmp(token.LSS, k, x.ixAdd(ol, n), ixT))
 	sl := x.srcElemLeaves(st, b, x.ixSub(k, ol))
-	x.vc.assume(Forall([][2]string{{"k!w", m.ixSort()}}, And(
-		Implies(m.cmp(token.LSS, k, ol, ixT), Eq(Select(na, k), Select(oldOut, k))),
-		Implies(And(okc, inNew), Eq(Select(na, k), sl[0]))), Select(na, k)))
+	if nl, ok := litValue(n); ok && nl.IsInt64() && nl.Int64() <= 40 {
+		// a short write of known length: on success the stream is the old one with the bytes stored one by one
+		// (quantifier-free); on failure only the prefix is known
+		written := oldOut
+		for j := int64(0); j < nl.Int64(); j++ {
+			written = Store(written, x.ixAdd(ol, m.ix(j)), x.srcElemLeaves(st, b, m.ix(j))[0])
+		}
+		x.vc.assume(Implies(okc, Eq(na, written)))
+		x.vc.assume(Implies(Not(okc), Forall([][2]string{{"k!w", m.ixSort()}},
+			Implies(m.cmp(token.LSS, k, ol, ixT), Eq(Select(na, k), Select(oldOut, k))), Select(na, k))))
+	} else {
+		x.vc.assume(Forall([][2]string{{"k!w", m.ixSort()}}, And(
+			Implies(m.cmp(token.LSS, k, ol, ixT), Eq(Select(na, k), Select(oldOut, k))),
+			Implies(And(okc, inNew), Eq(Select(na, k), sl[0]))), Select(na, k)))
+	}
 	nl := x.vc.fresh("wrlen", m.ixSort())
 	x.vc.assume(And(Implies(okc, Eq(nl, x.ixAdd(ol, n))), m.cmp(token.LEQ, ol, nl, ixT), m.cmp(token.LEQ, nl, x.ixAdd(ol, n), ixT)))
 	st.H["Io.out"] = Store(out, w.X, na)
@@ -122,10 +136,26 @@ func init() {
 	}
 }
 
+// infallible(w): specification-only property of a writer value: its Write never fails.
+func (x *Exec) infallible(w *Term) *Term {
+	q := "infallible"
+	if _, ok := x.vc.declared[q]; !ok {
+		x.vc.declared[q] = SBool
+		x.vc.items = append(x.vc.items, Item{Kind: "declfun", Name: q, Raw: "(declare-fun infallible (Int) Bool)"})
+	}
+	return App(q, SBool, w)
+}
+
 // ioBuiltin evaluates rpos/ravail/rbyte/wlen/wbyte in contracts.
 func (c *CEnv) ioBuiltin(name string, e *CE) (Value, bool) {
 	m := c.mode
 	switch name {
+	case "infallible":
+		a := c.eval(e.Args[0])
+		if a.K != KIface {
+			c.fail("infallible() needs an io.Writer value")
+		}
+		return Value{K: KScalar, T: types.Typ[types.Bool], X: c.x.infallible(a.X)}, true
 	case "rpos", "ravail", "wlen":
 		a := c.eval(e.Args[0])
 		if a.K != KIface {
